@@ -344,7 +344,8 @@ def diagnose(model):
 # ---------------------------------------------------------------------------------------------------
 
 def regen(ctx):
-    model, errors = takes.regen()
+    with vlib.build_lock():
+        model, errors = takes.regen()
     ctx.model = model
     ctx.translate_errors = errors
     for e in errors:
